@@ -12,9 +12,12 @@
 
 pub mod vecdeque;
 pub mod hash;
+#[cfg(kani)]
+mod kani_diff;
 
 pub use hash::{HashMap, HashSet};
 pub use vecdeque::VecDeque;
+pub use vecdeque::VecDequeIdx;
 
 /// Capacity of every modelled container (cargo feature `cap4` / `cap6` selects a smaller one:
 /// every model loop has exactly CAP iterations, so harnesses need `#[kani::unwind(CAP + 2)]`).
